@@ -148,6 +148,10 @@ var verifC08Prefixes = []string{
 	"DELIMITER ",
 	"-- atlas:delimiter ",
 	"A\nGO ",
+	// a comment closed directly by the delimiter: whatever follows is a statement of its own
+	"/* c */;",
+	"-- c\n;",
+	"A; -- c\n;",
 }
 
 func verifC08Free(n int, opts int) {
